@@ -65,21 +65,25 @@ Definition ex_l : list src := [([], n_tree, src_tree)].
 Ltac good := unfold good_name, n_tree, n_sub, n_b, n_z, dot, dotdot, c_slash, c_nl, NAME_MAX;
   repeat split; try discriminate; try (cbn; intuition discriminate); try (cbn; lia).
 
+Lemma ex_entries : map (sent_entry ex_cc) ex_l = [(n_tree, src_tree)].
+Proof. reflexivity. Qed.
+
 Lemma ex_hyps :
-  cc_suffix ex_cc = None /\ cc_preserve ex_cc = c_preserve ex_cfg /\
+  cc_preserve ex_cc = c_preserve ex_cfg /\
   (forall pre k n, In (pre, k, n) ex_l ->
      lookup (cc_fs ex_cc) (cc_cwd ex_cc ++ pre ++ [k]) = Some n /\ (pre <> [] \/ beq k sentinel = false)) /\
-  wf_src_list ex_cfg (map src_entry ex_l) /\ names_distinct (map src_entry ex_l) /\
-  fits_list (length (c_dest ex_cfg)) (map src_entry ex_l) /\
-  (forall k v, In (k, v) (map src_entry ex_l) -> assoc k [] = None) /\
+  wf_src_list ex_cfg (map (sent_entry ex_cc) ex_l) /\ names_distinct (map (sent_entry ex_cc) ex_l) /\
+  fits_list (length (c_dest ex_cfg)) (map (sent_entry ex_cc) ex_l) /\
+  (forall k v, In (k, v) (map (sent_entry ex_cc) ex_l) -> assoc k [] = None) /\
   resolve fs_plain (c_cwd ex_cfg) (c_dest ex_cfg) = ROk [n_h] true /\
   lookup fs_plain [n_h] = Some (Dir 493 None []) /\
   (c_preserve ex_cfg = true -> c_dirmode ex_cfg = true).
 Proof.
-  split; [reflexivity|]. split; [reflexivity|]. split.
+  rewrite ex_entries.
+  split; [reflexivity|]. split.
   { intros pre k n H. cbn in H. destruct H as [H|[]]. inversion H; subst. split; [reflexivity|right; reflexivity]. }
   split.
-  { unfold ex_l. cbn [map src_entry wf_src_list]. split; [good|]. split; [|exact I]. unfold src_tree.
+  { cbn [wf_src_list]. split; [good|]. split; [|exact I]. unfold src_tree.
     apply wf_src_dir. split; [intros _; cbn; unfold TMAX; lia|]. split.
     - unfold names_distinct. cbn. repeat constructor; cbn; intuition discriminate.
     - cbn [wf_src_list]. split; [good|]. split.
@@ -91,3 +95,12 @@ Proof.
   split; [cbn; unfold PATH_MAX; repeat split; lia|].
   split; [reflexivity|]. split; [vm_compute; reflexivity|]. split; reflexivity.
 Qed.
+
+(* a reverse copy (rpdcp): the remote sender runs in ./h and appends ".h" to the name given by the user *)
+Definition fs_rev : node := Dir 493 None [(n_h, Dir 493 None [(n_z, File 416 (Some 1000000003%Z) [90; 90])]); ([111], Dir 493 None [])].
+Lemma reverse_copy :
+  match run_copy true true true true true 18 4096 [n_h] [[n_z]] (Some n_h) [] [111] fs_rev with
+  | Some (w, _) => lookup (w_fs w) [[111]; n_z ++ [46] ++ n_h]
+  | None => None
+  end = Some (File 416 (Some 1000000003%Z) [90; 90]).
+Proof. vm_compute. reflexivity. Qed.
